@@ -20,11 +20,21 @@ import (
 )
 
 // TestC17Namesakes: an application dialect whose messages share id and Go type name with standard messages (its
-// own MessageHeartbeat, MessageSysStatus, MessageAttitude in its own package) lives in the same process as a
+// own MessageHeartbeat, MessageSysStatus, MessageParamSet, MessageAttitude in its own package) lives in the same process as a
 // shipped dialect. Each dialect's lookup must answer with the codec of ITS message - whichever of the two was
 // initialized first. The order matters only within one process, so every case runs in a process of its own.
 func TestC17Namesakes(t *testing.T) {
-	rec := evid.New(t, "C17", "an application dialect with namesakes of standard messages (same id, same Go type name, another package, another layout) and a shipped dialect (minimal / common / ardupilotmega) are initialized in one fresh process, in both orders and through both constructors; for ids 0, 1, 30 each dialect's GetMessage must return a codec whose CRC_EXTRA is the reference value for that dialect's own type, that encodes that type's values as the reference does and decodes them back into that type; each (shipped dialect, order, constructor) is a case, all 12 enumerated")
+	namesakesProperty(t, "C17", "TestC17Namesakes")
+}
+
+// TestC04Namesakes is the same scenario under C04: values of a message type are encoded and decoded by the layout of
+// that type, whatever other type of the same name the process knows.
+func TestC04Namesakes(t *testing.T) {
+	namesakesProperty(t, "C04", "TestC04Namesakes")
+}
+
+func namesakesProperty(t *testing.T, pid, testName string) {
+	rec := evid.New(t, pid, "an application dialect with namesakes of standard messages (same id, same Go type name, another package, another layout) and a shipped dialect (minimal / common / ardupilotmega) are initialized in one fresh process, in both orders and through both constructors; for ids 0, 1, 23, 30 each dialect's GetMessage must return a codec whose CRC_EXTRA is the reference value for that dialect's own type, that encodes that type's values as the reference does and decodes them back into that type; each (shipped dialect, order, constructor) is a case, all 12 enumerated")
 	for _, shipped := range []string{"minimal", "common", "ardupilotmega"} {
 		for _, order := range []string{"application-first", "shipped-first"} {
 			for _, ctor := range []string{"Initialize", "NewReadWriter"} {
@@ -36,7 +46,7 @@ func TestC17Namesakes(t *testing.T) {
 					if !strings.Contains(string(out), "NAMESAKES-FAIL") {
 						t.Fatalf("BROKEN: child process: %v\n%s", err, out)
 					}
-					evid.ReplayNote("C17", "TestC17Namesakes", msg)
+					evid.ReplayNote(pid, testName, msg)
 					t.Fatalf("%s", msg)
 				}
 				rec.Case(true, evid.HashS(shipped+order+ctor), "namesakes-"+order)
@@ -55,7 +65,7 @@ func TestC17NamesakesChild(t *testing.T) {
 	}
 	parts := strings.Split(spec, ",")
 	shippedD := map[string]*dialect.Dialect{"minimal": minimal.Dialect, "common": common.Dialect, "ardupilotmega": ardupilotmega.Dialect}[parts[0]]
-	app := &dialect.Dialect{Version: 3, Messages: []message.Message{&other.MessageHeartbeat{}, &other.MessageSysStatus{}, &other.MessageAttitude{}}}
+	app := &dialect.Dialect{Version: 3, Messages: []message.Message{&other.MessageHeartbeat{}, &other.MessageSysStatus{}, &other.MessageParamSet{}, &other.MessageAttitude{}}}
 	mk := func(d *dialect.Dialect) *dialect.ReadWriter {
 		if parts[2] == "NewReadWriter" {
 			rw, err := dialect.NewReadWriter(d) //nolint:staticcheck
@@ -83,7 +93,7 @@ func TestC17NamesakesChild(t *testing.T) {
 	check := func(label string, rw *dialect.ReadWriter, d *dialect.Dialect) {
 		for _, m := range d.Messages {
 			id := m.GetID()
-			if id != 0 && id != 1 && id != 30 {
+			if id != 0 && id != 1 && id != 23 && id != 30 {
 				continue
 			}
 			typ := reflect.TypeOf(m).Elem()
@@ -102,13 +112,21 @@ func TestC17NamesakesChild(t *testing.T) {
 				os.Exit(1)
 			}
 			val := reflect.New(typ)
-			// a recognisable value: first field set
-			f0 := val.Elem().Field(0)
-			switch f0.Kind() {
-			case reflect.Uint8, reflect.Uint16, reflect.Uint32, reflect.Uint64:
-				f0.SetUint(7)
-			case reflect.Float32, reflect.Float64:
-				f0.SetFloat(1.5)
+			// a recognisable value: every scalar field set, every string filled to its declared length
+			for fi := 0; fi < typ.NumField(); fi++ {
+				fv := val.Elem().Field(fi)
+				switch fv.Kind() {
+				case reflect.Uint8, reflect.Uint16, reflect.Uint32, reflect.Uint64:
+					fv.SetUint(uint64(7 + fi))
+				case reflect.Int8, reflect.Int16, reflect.Int32, reflect.Int64:
+					fv.SetInt(int64(3 + fi))
+				case reflect.Float32, reflect.Float64:
+					fv.SetFloat(1.5 + float64(fi))
+				case reflect.String:
+					n := 1
+					fmt.Sscanf(typ.Field(fi).Tag.Get("mavlen"), "%d", &n) //nolint:errcheck
+					fv.SetString(strings.Repeat("k", n))
+				}
 			}
 			for _, v2 := range []bool{false, true} {
 				want := lay.Encode(val.Interface(), v2)
@@ -127,8 +145,9 @@ func TestC17NamesakesChild(t *testing.T) {
 					os.Exit(1)
 				}
 				back, err := c.Read(&message.MessageRaw{ID: id, Payload: want}, v2)
-				if err != nil || reflect.TypeOf(back) != reflect.PtrTo(typ) || !ref.EqualMsg(back, val.Interface()) {
-					fmt.Printf("NAMESAKES-FAIL: %s: payload %x of id %d decodes to %T %+v (err %v), want %s.%s %+v\n", label, want, id, back, back, err, typ.PkgPath(), typ.Name(), val.Elem().Interface())
+				wantBack, _ := lay.Decode(want, v2) // v1 carries no extension fields
+				if err != nil || reflect.TypeOf(back) != reflect.PtrTo(typ) || !ref.EqualMsg(back, wantBack) {
+					fmt.Printf("NAMESAKES-FAIL: %s: payload %x of id %d decodes to %T %+v (err %v), want %s.%s %+v\n", label, want, id, back, back, err, typ.PkgPath(), typ.Name(), wantBack)
 					os.Exit(1)
 				}
 			}
